@@ -103,8 +103,18 @@ def _env_objects(kind, r):
         else:
             envs = Environments.from_linear_synthetic(r["n"], n_actions=r["na"], n_context_features=2, n_action_features=2, seed=r["seed"])
         if r.get("logged"):
-            from coba.learners import RandomLearner
-            envs = envs.logged(RandomLearner(seed=r.get("log_seed", 1)), *([r["logged_seed"]] if r.get("logged_seed") is not None else []))
+            from coba.learners import RandomLearner, FixedLearner, BanditEpsilonLearner
+            policies = []
+            for pol in r.get("log_policy") or [["random", r.get("log_seed", 1)]]:
+                if pol[0] == "fixed":      # a skewed logging policy: other propensities than the uniform one
+                    k = r["na"]
+                    small = [0.05, 0.1, 0.02][pol[1] % 3]
+                    policies.append(FixedLearner([small] * (k - 1) + [1 - small * (k - 1)], pol[2]))
+                elif pol[0] == "eps":
+                    policies.append(BanditEpsilonLearner(pol[1], pol[2]))
+                else:
+                    policies.append(RandomLearner(seed=pol[1]))
+            envs = envs.logged(policies if len(policies) > 1 else policies[0], *([r["logged_seed"]] if r.get("logged_seed") is not None else []))
     envs = _apply_ops(envs, r.get("prefix", []))
     out = []
     for br in r.get("branches", [[]]):
@@ -854,6 +864,10 @@ def gen_ops(rng, allow_fanout=True):
 def n_objects(recipe):
     if recipe.get("raw"):
         return 1
+    return _n_branch_objects(recipe) * max(1, len(recipe.get("log_policy") or [1]) if recipe.get("logged") else 1)
+
+
+def _n_branch_objects(recipe):
     n = 0
     for br in recipe.get("branches", [[]]):
         k = 1
@@ -1032,6 +1046,11 @@ def gen_builtin(rng, tier, real_p=0.03):
             r["log_seed"] = rng.randint(1, 4)
             if rng.chance(0.5):
                 r["logged_seed"] = rng.choice([2.5, 7, 0.5])
+            if rng.chance(0.55):
+                # logging policies with different propensities (one logged environment per policy)
+                pols = [["random", rng.randint(1, 4)], ["fixed", rng.below(3), rng.randint(1, 4)], ["fixed", rng.below(3), rng.randint(1, 4)],
+                        ["eps", rng.choice([0.1, 0.3]), rng.randint(1, 4)]]
+                r["log_policy"] = rng.sample(pols, rng.choice([1, 2, 2, 3]))
             any_logged = True
         r["prefix"], r["branches"] = gen_builtin_ops(rng)
         envs.append(r)
@@ -1095,7 +1114,7 @@ def gen_builtin(rng, tier, real_p=0.03):
             vals.append({"type": "seq", "record": ["reward", "action"], "seed": None, "learn": "on", "eval": "on"})
     ne = sum(n_objects(r) for r in envs)
     nl, nv = len(lrns), len(vals)
-    case = {"kind": "builtin", "seed": rng.choice([1, 1, 2, 7]), "envs": envs, "lrns": lrns, "vals": vals}
+    case = {"kind": "builtin", "seed": rng.choice([1, 1, 2, 7, 0, 0]), "envs": envs, "lrns": lrns, "vals": vals}
     if rng.chance(0.55):
         case["mode"] = "product"
         case["pe"], case["pl"], case["pv"] = list(range(ne)), list(range(nl)), list(range(nv))
@@ -1559,6 +1578,23 @@ def directed_cases():
                             {"type": "seq", "record": ["reward"], "seed": None, "learn": None, "eval": "ips"}],
                    "mode": "product", "pe": [0], "pl": order, "pv": [0, 1],
                    "runs": [inproc, {"cfg": [2, 0, 1], "how": "sim", "sched": 32}]})
+    # --- round e
+    # one default RejectionCB object over logged environments with different propensities (its data-adaptive start value
+    # must be recomputed per evaluation), in-process vs workers
+    cs.append({"kind": "builtin", "seed": 1,
+               "envs": [{"src": "linear", "n": 30, "na": 3, "seed": 5, "logged": True, "log_policy": [["fixed", 1, 4], ["fixed", 0, 4], ["random", 2]],
+                         "prefix": [], "branches": [[]]}],
+               "lrns": [{"type": "random", "seed": 2}, {"type": "policy", "tag": 1, "p": 1.0 / 3}],
+               "vals": [{"type": "rej", "record": ["reward", "action"], "seed": None}],
+               "mode": "product", "pe": [0, 1, 2], "pl": [0, 1], "pv": [0], "single_eval": True,
+               "runs": [inproc, {"cfg": [2, 1, 0], "how": "sim", "sched": 41}, {"cfg": [1, 0, 1], "how": "inproc", "sched": 0}], "rerun": True})
+    # experiment seed 0 is a seed like any other: PMF learner and RejectionCB without own seed, twice and on workers
+    cs.append({"kind": "builtin", "seed": 0,
+               "envs": [{"src": "linear", "n": 20, "na": 3, "seed": 3, "logged": True, "log_policy": [["random", 2]], "prefix": [], "branches": [[]]}],
+               "lrns": [{"type": "pmf", "tag": 0}, {"type": "random", "seed": 2}],
+               "vals": [{"type": "seq", "record": ["reward", "action", "probability"], "seed": None}, {"type": "rej", "record": ["reward"], "seed": None}],
+               "mode": "product", "pe": [0], "pl": [0, 1], "pv": [0, 1],
+               "runs": [inproc, {"cfg": [2, 0, 0], "how": "sim", "sched": 42}], "rerun": True})
     return cs
 
 
